@@ -25,12 +25,16 @@
 //!   `below_one_secondary_unit` (the discrepancy is worth less than 5 base units of the other pool token at the
 //!   execution prices: the size of the truncation when a remaining cost is converted into secondary tokens, at most
 //!   once per cost of a decrease).
+//! * `funding_index_backing` (every funding update report): per collateral token `c`,
+//!   `Δfunding index[payer, c] · OI_payer[c] ≥ Δclaimable index[receiver, c] · OI_receiver` (payer indices are rounded up,
+//!   receiver indices down), so that the amounts positions will be charged cover the amounts positions can claim.
 //! * `funding_residual_negative` (after every step): `Σ funding collected in t − Σ claimable funding paid out in t ≥ 0`
 //!   (this is `residual_t` whenever the identity holds) as long as no insufficient funding payment was reported in the
 //!   history. The key says whether the deficit is covered by the funding fees that open positions already owe
 //!   according to the funding index but have not settled yet (`covered_by_pending_payer_debt`, big integers:
 //!   `Σ ⌈size·(index − position index)/(adjustment·10²⁰)⌉`).
 
+use gmsol_model::action::update_funding_state::UpdateFundingReport;
 use num_bigint::{BigInt, BigUint};
 use num_traits::{Signed, Zero};
 use simcore::Obs;
@@ -38,7 +42,7 @@ use simcore::Obs;
 use crate::num::UNIT;
 use crate::refmath::{bi, bu};
 use crate::world::{
-    MarketState, StepOutcome, World, P_CLAIMABLE_FEE, P_COLLATERAL_SUM_LONG, P_COLLATERAL_SUM_SHORT,
+    MarketState, Report, StepOutcome, World, P_OI_LONG, P_OI_SHORT, P_CLAIMABLE_FEE, P_COLLATERAL_SUM_LONG, P_COLLATERAL_SUM_SHORT,
     P_FUNDING_LONG, P_FUNDING_SHORT, P_PRIMARY, P_SWAP_IMPACT,
 };
 
@@ -76,7 +80,42 @@ pub fn pending_payer_debt(w: &World, token_long: bool) -> BigUint {
     total
 }
 
+/// Index-level backing of one funding update: what the payers' index charges in collateral token `c`, summed over the
+/// payers' open interest with that collateral, covers what the receivers' claimable index promises in `c` over the
+/// receivers' whole open interest: `Δfunding[payer, c] · OI_payer[c] ≥ Δclaimable[receiver, c] · OI_receiver`.
+fn check_funding_update(out: &StepOutcome, rep: &UpdateFundingReport<u128, i128>, obs: &mut Obs) {
+    let pre = &out.before.market;
+    for longs_pay in [true, false] {
+        let payer = pre.pools[if longs_pay { P_OI_LONG } else { P_OI_SHORT }];
+        let recv = pre.pools[if longs_pay { P_OI_SHORT } else { P_OI_LONG }];
+        let recv_total = bu(recv.long) + bu(recv.short);
+        for coll_long in [true, false] {
+            let charged = bu(*rep.delta_funding_amount_per_size(longs_pay, coll_long)) * bu(payer.amount(coll_long));
+            let promised = bu(*rep.delta_claimable_funding_amount_per_size(!longs_pay, coll_long)) * &recv_total;
+            if promised.is_zero() && charged.is_zero() {
+                continue;
+            }
+            obs.probe("c08_funding_update_with_payment");
+            obs.require(
+                charged >= promised,
+                "C08",
+                "funding_index_backing",
+                || format!("payer={},collateral={}", if longs_pay { "long" } else { "short" }, if coll_long { "long" } else { "short" }),
+                || format!("Δfunding index × payer OI = {charged} < Δclaimable index × receiver OI = {promised}"),
+            );
+        }
+    }
+}
+
 pub fn after_step(w: &World, out: &StepOutcome, obs: &mut Obs) {
+    if let Report::Funding(rep) = &out.report {
+        check_funding_update(out, rep, obs);
+    }
+    for r in &out.pre_reports {
+        if let Report::Funding(rep) = r {
+            check_funding_update(out, rep, obs);
+        }
+    }
     for token_long in [true, false] {
         let i = if token_long { 0 } else { 1 };
         let tname = if token_long { "long" } else { "short" };
